@@ -51,8 +51,6 @@ Definition cmd_views (v : val) : val :=
 (** 2: the same views from their DEFINITIONS (spec/ViewsSpec.v); where a
     definition is a predicate ([is_max]) the candidate is checked. The
     harness applies this to the implementation's own answers. *)
-Definition is_maxb (l : list Z) (x : Z) : bool :=
-  existsb (Z.eqb x) l && forallb (fun y => y <=? x) l.
 Definition cmd_spec (v : val) : val :=
   let I := dec_instance v in
   let nm := num_machines I in
